@@ -516,7 +516,7 @@ func runC08(c *Ctx, variant int) {
 		d.verifyWire(true)
 		return
 	}
-	steps := w.Range(3, 12)
+	steps := w.Range(3, c.Deep(12))
 	for i := 0; i < steps; i++ {
 		switch w.Choose(16) {
 		case 0, 1:
